@@ -147,6 +147,13 @@ func (Engine) Gen(seed uint64, idx int, tier string) interface{} {
 				}
 			}
 			sc.Sources = append(sc.Sources, Source{Name: fmt.Sprintf("<other%d>", i), Src: src})
+		case x == 8 && r.Chance(1, 2):
+			// literal-heavy modules, well-formed and rejected ones: number and
+			// string decoding has its own buffers and tables
+			sc.Sources = append(sc.Sources, Source{Name: fmt.Sprintf("<lits%d>", i), Src: gen.LitModule(simrt.NewRand(r.Uint64()), r.Chance(2, 3))})
+			if r.Chance(1, 2) {
+				sc.Sources = append(sc.Sources, Source{Name: fmt.Sprintf("<lits%db>", i), Src: gen.LitModule(simrt.NewRand(r.Uint64()), r.Chance(1, 2))})
+			}
 		case x == 8:
 			sc.Sources = append(sc.Sources, Source{Name: "<expr>", Src: exprs[r.Intn(len(exprs))]})
 		default:
